@@ -103,6 +103,18 @@ def Holder.isClient : Holder → Bool
   | .client _ => true
   | _ => false
 
+def Holder.isTransit : Holder → Bool
+  | .transit | .rebuild => true
+  | _ => false
+
+def Holder.isNested : Holder → Bool
+  | .item _ => true
+  | _ => false
+
+def Holder.isTemp : Holder → Bool
+  | .temp => true
+  | _ => false
+
 /-- may this holder's process act (a proxy in an exited process does nothing any more) -/
 def canAct (s : State) : Holder → Bool
   | .client p => s.stat p != .exited
@@ -165,13 +177,11 @@ def cnt (f : Holder → Bool) (s : State) (i : Nat) : Nat :=
 /-- live proxies in client processes -/
 def live (s : State) (i : Nat) : Nat := cnt Holder.isClient s i
 /-- pickles in transit (incl. those being un-pickled, until the compensating decrement) -/
-def inTransit (s : State) (i : Nat) : Nat :=
-  cnt (fun h => h == .transit || h == .rebuild) s i
+def inTransit (s : State) (i : Nat) : Nat := cnt Holder.isTransit s i
 /-- proxies stored in hosted containers -/
-def nested (s : State) (i : Nat) : Nat :=
-  cnt (fun h => match h with | .item _ => true | _ => false) s i
+def nested (s : State) (i : Nat) : Nat := cnt Holder.isNested s i
 /-- server temporaries -/
-def temps (s : State) (i : Nat) : Nat := cnt (fun h => h == .temp) s i
+def temps (s : State) (i : Nat) : Nat := cnt Holder.isTemp s i
 
 /-- what the server does on its own, without any client action: finish dropping its temporaries -/
 def serverInternal : Act → Bool
